@@ -266,6 +266,10 @@ def twin_case(item):
     for i in range(n):
         if i != pos and by[base[i]][1] != srcs[i]:
             return dict(ok=False, why='an unrelated resource changed', resource=base[i])
+    # the copy is a resource of its own: its own path, so that a dumper writes two complete files
+    paths = [r.get('path') for r in dp.descriptor['resources']]
+    if len(set(map(str, paths))) != len(paths):
+        return dict(ok=False, why='the copy shares its path with another resource', got=paths)
     return dict(ok=True)
 
 
